@@ -47,6 +47,21 @@ theorem Inv.init' (cfg : Config) (r : Reader) : Inv cfg r.data (LB.init cfg) r [
   · intro hs
     simp [LB.stopped, LB.init] at hs
 
+/-- a cleared buffer, whatever it held before, starts the next reader like a fresh one -/
+theorem Inv.clear (cfg : Config) (s : LB) (hc : s.cfg = cfg) (r : Reader) :
+    Inv cfg r.data s.clear r [] [] r.data := by
+  refine ⟨hc, by simp, rfl, ?_, by simp [LB.clear], by simp [LB.clear], by simp [LB.clear], Or.inr rfl, ?_, ?_⟩
+  · show ([] : Bytes).drop 0 = s.cfg.binary.tr s.cfg.lineterm []
+    cases h : s.cfg.binary <;> simp [BinDet.tr]
+  · unfold BinOK
+    show match s.cfg.binary with
+      | .none => (none : Option Nat) = none
+      | .quit b => b ∉ ([] : Bytes) ++ [] ∧ ∀ o, (none : Option Nat) = some o → o = 0 + 0 ∧ r.data.head? = some b
+      | .convert b => b ≠ s.cfg.lineterm → (none : Option Nat) = findByte b ([] ++ [])
+    cases h : s.cfg.binary <;> simp [findByte]
+  · intro hs
+    simp [LB.stopped, LB.clear] at hs
+
 theorem Inv.mlen {cfg inp s r a m rest} (h : Inv cfg inp s r a m rest) :
     m.length = s.buf.length - s.pos := by
   have := congrArg List.length h.hwin
